@@ -296,6 +296,10 @@ func RunC08(tier, replay string) int {
 				group = "definition-lost"
 			case "operation-dropped", "operation-unreachable", "operations-merged", "wrong-handler":
 				group = "operation-lost"
+			case "client-method-dropped":
+				group = "client-method-lost"
+			case "client-definition-dropped":
+				group = "client-definition-lost"
 			}
 			r.Violate(evid.Violation{Signature: group + " | " + c.Class + " | " + c.Name, What: fmt.Sprintf("[%s] %s", c.Name, what), Case: c, Observed: obs})
 		}
@@ -347,6 +351,11 @@ func RunC08(tier, replay string) int {
 		}
 		if len(missingOps) > 0 {
 			viol("operation-dropped", fmt.Sprintf("generation succeeded but no generated handler declares swagger:route for %v (handlers: %v)", missingOps, routes), nil)
+		}
+		// --- client target: every operation must own a client method (a runtime.ClientOperation with its
+		// method and path pattern), every definition a model type
+		if cerr := c08ClientCheck(s, i, c, ops, sortedKeys(defs), func(kind, what string) { viol(kind, what, nil) }); cerr != "" {
+			r.Count("client_generation_refused", 1)
 		}
 		// --- operations (dynamic)
 		if sc.Bin == "" {
@@ -433,4 +442,56 @@ func fileExcludedFromBuild(name string) bool {
 		}
 	}
 	return false
+}
+
+
+var rxClientOp = regexp.MustCompile(`Method:\s+"(\w+)",\s*\n\s*PathPattern:\s+"([^"]*)"`)
+
+// c08ClientCheck generates the client of the case and checks statically that every operation has its
+// own client method and every definition its model type. Returns the generation error, if any.
+func c08ClientCheck(s *Scratch, idx int, c c08Case, ops []specOp, defNames []string, viol func(kind, what string)) string {
+	dir := filepath.Join(s.Dir, fmt.Sprintf("cl%04d", idx))
+	must(os.MkdirAll(dir, 0o755))
+	defer os.RemoveAll(dir)
+	sp := filepath.Join(dir, "swagger.json")
+	must(os.WriteFile(sp, prettyJSON(c.Doc), 0o644))
+	args := append([]string{"--name", "verifapp"}, c.Args...)
+	if res := s.Generate("client", sp, dir, args...); res.Err != nil {
+		return lastLines(res.Out, 3)
+	}
+	have := map[string]int{}
+	_ = filepath.Walk(filepath.Join(dir, "client"), func(p string, info os.FileInfo, err error) error {
+		if err != nil || info.IsDir() || !strings.HasSuffix(p, "_client.go") {
+			return nil
+		}
+		b, _ := os.ReadFile(p)
+		for _, m := range rxClientOp.FindAllStringSubmatch(string(b), -1) {
+			have[strings.ToUpper(m[1])+" "+m[2]]++
+		}
+		return nil
+	})
+	var missing []string
+	for _, op := range ops {
+		if have[op.Method+" "+op.Path] == 0 {
+			missing = append(missing, op.Method+" "+op.Path)
+		}
+	}
+	if len(missing) > 0 {
+		viol("client-method-dropped", fmt.Sprintf("generate client succeeded but no client method performs %v (client operations: %v)", missing, have))
+	}
+	if len(defNames) > 0 {
+		types, err := ModelTypes(filepath.Join(dir, "models"))
+		if err == nil {
+			var md []string
+			for _, n := range defNames {
+				if _, ok := types[n]; !ok {
+					md = append(md, n)
+				}
+			}
+			if len(md) > 0 {
+				viol("client-definition-dropped", fmt.Sprintf("generate client succeeded but no generated type carries swagger:model for definition(s) %v", md))
+			}
+		}
+	}
+	return ""
 }
